@@ -58,7 +58,22 @@ func (d *Driver) expectedFor(c *ClientState, i int) Expected {
 	msgMax := d.P.Proxy.MsgMax
 	switch rq.Class {
 	case "local", "reject":
+		if string(rq.Expect) == "-" {
+			return Expected{Known: true, AnyError: true, Why: rq.Class + " (any error reply)"}
+		}
 		return Expected{Known: true, Exact: rq.Expect, Why: rq.Class}
+	case "either":
+		// unspecified by the statement whether this request is served: if a backend saw it, its reply must come back
+		// unchanged, otherwise the proxy must have answered with an error of its own
+		for _, r := range d.recsFor(rq.Tok) {
+			if r.Kind == "data" && r.Released {
+				if len(r.Reply) > msgMax {
+					return Expected{Known: true, AnyError: true, Why: "served, reply larger than the limit"}
+				}
+				return Expected{Known: true, Exact: r.Reply, Why: "served (unspecified case)"}
+			}
+		}
+		return Expected{Known: true, AnyError: true, Why: "not served (unspecified case): an error reply is due"}
 	case "single":
 		var fin, last *CmdRec
 		for _, r := range d.recsFor(rq.Tok) {
@@ -229,7 +244,7 @@ func (d *Driver) ClassifyReplies() []ReplyFinding {
 	var out []ReplyFinding
 	// all expected exact replies of forwarded requests, for "foreign" detection
 	for _, c := range d.Clients {
-		if !c.Connected {
+		if !c.Connected || c.Plan.Hostile {
 			continue
 		}
 		n := len(c.Plan.Reqs)
